@@ -21,7 +21,9 @@ RULE = ("(api) API-built sets: 1-2 languages with codes from a pool including qu
         "DFXP/SAMI/WebVTT/SRT/MicroDVD documents (C04 generators) and generated SCC pop-on "
         "programs (C05 generator). Output parsed with "
         "lxml.etree without recovery. Non-trivial: an attribute-position string contains one of "
-        "& < > \" ', or >= 2 regions, or >= 2 languages, or STYLE nodes present.")
+        "& < > \" ', or >= 2 regions, or >= 2 languages, or STYLE nodes present. "
+        'In a third of the API cases the writer object has written another generated set '
+        "(often with a 'p' style) before. ")
 ASSUMPTIONS = [
     "style ids and class names contain no whitespace (style= is a list of ids)",
     "RelativizationError and the documented ValueError of fit-to-screen on absolute units are "
